@@ -5,6 +5,8 @@ specific operand lists before the operand sets; disallowed pairs skipped; inside
 register-indexed forms, then enumeration keys and plain registers, then numeric expressions.  Every alternative carries
 a distinct code, every variant a distinct opcode, so the image reveals the choice.  Probe: `select`.
 """
+import json
+
 from vf import core, isa as isamod
 from vf.model import encode, layout
 
@@ -16,7 +18,7 @@ KEYS = {'zed': 1, 'one': 2, 'lab_k': 3}
 # priority classes the statement fixes (lower = tried earlier)
 PRIO = {'indirect_register': 0, 'indirect_indexed_register': 0, 'indirect_numeric': 0, 'deferred_numeric': 0,
         'indexed_register': 0, 'enumeration': 1, 'register': 1, 'numeric': 2, 'address': 2, 'numeric_bytecode': 2,
-        'relative_address': 2, 'numeric_enumeration': 2}
+        'relative_address': 2, 'numeric_enumeration': 1}
 # the implementation's total order (used only to order alternatives of the SAME priority class that cannot both accept)
 IMPL = {'indirect_register': 2, 'indirect_indexed_register': 3, 'indirect_numeric': 4, 'deferred_numeric': 5,
         'indexed_register': 6, 'enumeration': 7, 'numeric_enumeration': 7, 'register': 8, 'numeric': 9, 'address': 10,
@@ -60,11 +62,16 @@ def alt_pool(rng):
         'predec_sp': {'type': 'register', 'register': 'sp', 'bytecode': bc(), 'decorator': {'type': 'minus', 'is_prefix': True}},
         'postinc_a': {'type': 'register', 'register': 'a', 'bytecode': bc(), 'decorator': {'type': 'plus', 'is_prefix': False}},
         'rel': {'type': 'relative_address', 'argument': {'size': 8, 'byte_align': True}, 'bytecode': bc()},
+        # numeric enumerations (a numeric expression whose value is looked up): one with an argument table only, one with both
+        'nenum_arg': {'type': 'numeric_enumeration',
+                      'argument': {'size': 8, 'byte_align': True, 'value_dict': {v: 0x80 + v for v in range(0, 18)}}},
+        'nenum_bc': {'type': 'numeric_enumeration', 'bytecode': {'size': 5, 'value_dict': {v: (3 * v + 1) % 32 for v in range(0, 18)}},
+                     'argument': {'size': 8, 'byte_align': True, 'value_dict': {v: 0x60 + v for v in range(0, 18)}}},
     }
     return pool
 
 
-EXPR_LIKE = ('num', 'numbc', 'adr', 'rel')
+EXPR_LIKE = ('num', 'numbc', 'adr', 'rel', 'nenum_arg', 'nenum_bc')
 
 
 def operand_texts(rng):
@@ -143,7 +150,7 @@ def accepts(name, conf, o, addr):
         if c == 'word' and o['w'] in conf['argument']['value_dict']:
             return {'id': name, 'key': o['w']}
         return None
-    if t in ('numeric', 'address', 'numeric_bytecode'):
+    if t in ('numeric', 'address', 'numeric_bytecode', 'numeric_enumeration'):
         # any identifier is syntactically a label (it may be defined later): a numeric alternative accepts it
         if c == 'num' or c == 'word':
             return {'id': name, 'val': o['e'], 'undefined': o['e'] is None}
@@ -188,6 +195,9 @@ class C13(core.Check):
                    '(register, then enumeration key, then numeric expression)',
                    'within one priority class of the statement (bracketed/indexed forms; keys and registers; numeric expressions) '
                    'two alternatives that both accept a text make the case DONT_CARE',
+                   'a numeric enumeration shares the priority class of enumeration keys (an identifier that an enumeration and a '
+                   'numeric enumeration of one set both accept makes the case DONT_CARE); it is never put in one set with another '
+                   'numeric-expression alternative, so its order relative to those is not examined',
                    'a specific-operand list whose length differs from count is not generated (malformed by C19)')
     chunk = 1500
     crosscheck_every = {'quick': 50, 'thorough': 50}
@@ -198,10 +208,13 @@ class C13(core.Check):
         'chosen:variant>=2', 'chosen:specific', 'expect:ACCEPT', 'expect:REJECT',
         'later-candidate-after-nonaccepting-earlier', 'amb:disallowed-pair-mirrored-is-allowed', 'amb:two-specific-entries-accept',
         'amb:key-vs-relative-address', 'amb:decorated-register-vs-numeric', 'amb:implied-operand-entry-vs-shorter-variant',
-        'amb:out-of-range-literal-with-later-accepting-candidate', 'primer:earlier-statement-took-a-later-variant', 'amb:listed-combination-named-like-the-disallowed-pair', 'amb:index-key-vs-index-expression', 'amb:register-that-reads-as-a-number']}
+        'amb:out-of-range-literal-with-later-accepting-candidate', 'primer:earlier-statement-took-a-later-variant', 'amb:listed-combination-named-like-the-disallowed-pair', 'amb:index-key-vs-index-expression', 'amb:register-that-reads-as-a-number',
+        'amb:register-vs-numeric-enumeration', 'amb:register-vs-numeric-enumeration-with-argument-table-only']}
 
-    def gen_isa(self, rng, force_empty=False, force_dp=False):
+    def gen_isa(self, rng, force_empty=False, force_dp=False, force_ne=False, force_idx=False):
         self._dp_pair = None
+        self._ne_regs = None
+        self._idx = False
         pool = alt_pool(rng)
         names = sorted(pool)
         sets = {}
@@ -255,6 +268,32 @@ class C13(core.Check):
                     'specific_operands': {'zeta_first': {'list': lst_}}}}]
                 nv = rng.randrange(0, 2)
                 self._dp_pair = (sn_, [i1_, i2_])
+        if force_idx and not variants:
+            # an indexed register whose index reads as a label expression / as an index key
+            sn_ = sorted(sets)[0]
+            s0 = sets[sn_]['operand_values']
+            if 'idx_b' not in s0:
+                items_ = list(s0.items())
+                items_.insert(rng.randrange(0, len(items_) + 1), ('idx_b', pool['idx_b']))
+                sets[sn_]['operand_values'] = dict(items_)
+            variants = [{'bytecode': {'value': 0xA0, 'size': 8}, 'operands': {'count': 1, 'operand_sets': {'list': [sn_]}}}]
+            nv = rng.randrange(0, 2)
+            self._idx = True
+        if force_ne and not variants:
+            # a numeric enumeration next to plain registers in one operand set: the register text belongs to the register
+            sn_ = sorted(sets)[0]
+            s0 = sets[sn_]['operand_values']
+            for q in [q for q in s0 if q in EXPR_LIKE]:
+                del s0[q]
+            ne_ = rng.choice(['nenum_arg', 'nenum_arg', 'nenum_bc'])
+            regs_ = rng.sample(['reg_a', 'reg_b', 'reg_sp'], 2)
+            new_ = [(ne_, pool[ne_])] + [(r_, pool[r_]) for r_ in regs_ if r_ not in s0] + list(s0.items())
+            if rng.random() < 0.5:
+                new_ = list(s0.items()) + [(r_, pool[r_]) for r_ in regs_ if r_ not in s0] + [(ne_, pool[ne_])]
+            sets[sn_]['operand_values'] = dict(new_)
+            variants = [{'bytecode': {'value': 0xA0, 'size': 8}, 'operands': {'count': 1, 'operand_sets': {'list': [sn_]}}}]
+            nv = rng.randrange(0, 2)
+            self._ne_regs = [pool[r_]['register'] for r_ in regs_]
         for vi in range(len(variants), len(variants) + nv):
             cnt = rng.choice([1, 1, 2])
             ops = {'count': cnt}
@@ -387,7 +426,8 @@ class C13(core.Check):
         n = 900 if tier == 'quick' else 15000
         for i in range(n_pre + n):
             rng = core.rng_for(0 if i < n_pre else seed, self.pid, i)
-            isa = self.gen_isa(rng, force_empty=(i < n_pre and i % 10 == 3), force_dp=(i < n_pre and i % 10 == 7))
+            isa = self.gen_isa(rng, force_empty=(i < n_pre and i % 10 == 3), force_dp=(i < n_pre and i % 10 == 7),
+                               force_ne=(i < n_pre and i % 10 == 5), force_idx=(i < n_pre and i % 10 == 9))
             texts = operand_texts(rng)
             mirrored = None
             for v in encode.variants_of(isa, 'amb'):
@@ -395,7 +435,16 @@ class C13(core.Check):
                 dp = os_.get('disallowed_pairs')
                 if dp and len(dp[0]) == 2 and dp[0][0] != dp[0][1] and os_['list'][0] == os_['list'][1]:
                     mirrored = (os_['list'][0], dp[0])
-            if self._dp_pair and rng.random() < 0.8:
+            if self._idx and rng.random() < 0.8:
+                lab_ = rng.choice(sorted(LABELS))
+                sp_ = rng.choice(['', ' '])
+                operands = [{'cls': 'idx', 'r': 'b', 'e': LABELS[lab_], 'text': f'b{sp_}+{sp_}{lab_}', 'lab': lab_}]
+                mirror_case = False
+            elif self._ne_regs and rng.random() < 0.7:
+                r_ = rng.choice(self._ne_regs)
+                operands = [{'cls': 'reg', 'r': r_, 'text': r_ if rng.random() < 0.7 else r_.upper()}]
+                mirror_case = False
+            elif self._dp_pair and rng.random() < 0.8:
                 sname, (i1, i2) = self._dp_pair
                 ov = isa['operand_sets'][sname]['operand_values']
                 operands = []
@@ -491,6 +540,13 @@ class C13(core.Check):
                         tags.add('amb:bracketed-vs-numeric-set')
                     if o['cls'] == 'reg' and stmt['spec'] is None:
                         tags.add('amb:register-vs-numeric')
+                        v_ = encode.variants_of(isa, 'amb')[stmt['variant']]
+                        for sn in ((v_.get('operands') or {}).get('operand_sets') or {}).get('list', []):
+                            ov_ = isa['operand_sets'][sn]['operand_values']
+                            if op['id'] in ov_ and any(c_['type'] == 'numeric_enumeration' for c_ in ov_.values()):
+                                tags.add('amb:register-vs-numeric-enumeration')
+                                if any(c_['type'] == 'numeric_enumeration' and 'bytecode' not in c_ for c_ in ov_.values()):
+                                    tags.add('amb:register-vs-numeric-enumeration-with-argument-table-only')
                     if o['cls'] == 'reg' and o['r'] == 'ah' and len(acc) >= 1:
                         tags.add('amb:register-that-reads-as-a-number')
                     if o['cls'] == 'idx' and o.get('lab'):
@@ -553,7 +609,7 @@ class C13(core.Check):
                     tags.add('primer:earlier-statement-took-a-later-variant')
                     break
             src = ''.join(f'{k} = {v}\n' for k, v in LABELS.items()) + primer + f'.org {addr}\n{text}\n.byte $EE\n'
-            fn, itext = isamod.render_isa(isa, 'json')
+            fn, itext = isamod.render_isa(isa, 'yaml' if 'numeric_enumeration' in json.dumps(isa) else 'json')
             tags.add('expect:' + kind)
             ntk = None
             if len(acc) >= 2:
